@@ -21,6 +21,7 @@ mod c14;
 mod c13;
 mod c18;
 mod c15;
+mod flexcorr;
 
 use common::*;
 
@@ -101,6 +102,7 @@ fn main() {
         "C13" => c13::run(&cfg, &mut out),
         "C18" => c18::run(&cfg, &mut out),
         "C15" => c15::run(&cfg, &mut out),
+        "FLEX" => flexcorr::run(&cfg, &mut out),
         _ => {
             eprintln!("unknown property {prop}");
             std::process::exit(2)
